@@ -2,7 +2,12 @@
 
 Same generated runs as C16 (opv/rigs/tagreport_rig.py). At every report the harness holds a shadow snapshot of the
 reported value (Tag.as_readonly().value) of every engine tag; the report delivered by the real EngineMessageBuilder
-is compared with the difference between this shadow and the shadow at the previous report. See DESIGN.md C36."""
+is compared with the difference between this shadow and the shadow at the previous report. See DESIGN.md C36.
+
+Second stratum (opv/rigs/tagreport_mt_rig.py): the same generated runs with the production thread layout - every tick on
+an engine thread, the report builder on another - and a harness-controlled interleaving: at every position of the
+builder's drain (before the first queue get, between two conversions, between a get and its conversion, after the
+last entry) the schedule lets 0..n complete ticks run. Judged at quiescent points (check_run_mt)."""
 from __future__ import annotations
 
 import random
@@ -21,21 +26,36 @@ RULE = ("the C16 workload: seeded P-code generator (blocks, marks, Simulate/Simu
         "archiver on/off x optional user Pause/Hold/Stop/Start/Restart x report schedule (incremental or snapshot "
         "report after random 1-7 ticks, first report is the snapshot the runner sends on connect). distinct = shape "
         "hash of the method text + archiver flag; non-trivial = at least one incremental report with >= 2 changed "
-        "tags was judged in that run")
+        "tags was judged in that run. Two-thread stratum (a quarter as many additional runs, own generator stream): all "
+        "ticks on an engine thread, reports built on the shard's thread; per report a seeded schedule (quiet | first | "
+        "last | rand | every, budget 1-6 ticks) lets complete ticks run at the builder's yield points (queue get incl. "
+        "the one that finds the queue empty, Tag.as_readonly); every non-quiet report is followed after 0-2 ticks by a "
+        "quiet incremental report; non-trivial there = a tick re-queued an already converted tag with a new value")
 ASSUMPTIONS = [
     "'value' of a tag = what a report would carry: Tag.as_readonly().value (simulated value while simulated)",
     "'changed between two reports' = the shadow value at this report differs (python !=) from the shadow value at "
     "the previous report; a tag that changed and changed back (A-B-A) between two reports is counted "
     "(aba_changes_not_judged) but not required to be reported",
-    "reports are taken between ticks, as the engine runner's sender task does under the GIL; changes made after "
-    "Engine.notify_tag_updates() of a tick do not occur in this workload",
+    "first stratum: reports are taken between ticks; changes made after Engine.notify_tag_updates() of a tick do not "
+    "occur in this workload",
+    "two-thread stratum: thread switches are explored at the report builder's yield points only (queue get, "
+    "Tag.as_readonly) and only complete ticks are interleaved there (no switch inside Engine.tick); 'between two "
+    "reports' is judged only where it is unambiguous: after a report built while nothing else ran, the mirror of the "
+    "report stream (last reported value per tag) must equal every tag's current value - a change made by a tick that "
+    "completed during a report build may be carried by that report or by the next one; the hang guard (wall clock) "
+    "only makes the shard INCONCLUSIVE",
     "observation through Tag.__setattr__ / Tag.notify_listeners replaced from the harness (classifier aid only; the "
     "verdict uses the shadow snapshots and the delivered message)",
 ]
 REQUIRED = {"reports": 1500, "snapshot_reports": 300, "incremental_reports": 1000, "changed_tag_checks": 10000,
             "latest_value_checks": 20000, "duplicate_checks": 1500, "snapshot_completeness_checks": 300,
             "reports_with_2plus_changed": 800, "changed_tag_checks_tag:Block": 50, "changed_tag_checks_tag:Mark": 50,
-            "changed_tag_checks_simulation": 20}
+            "changed_tag_checks_simulation": 20,
+            # two-thread stratum (ticks complete on the engine thread while the report builder is mid-drain)
+            "mt_reports_with_mid_ticks": 1000, "mt_quiescent_followups_judged": 1000, "mt_mirror_checks": 40000,
+            "mt_tags_requeued_mid_drain_new_value": 3000, "mt_snapshot_reports_with_mid_ticks": 100,
+            "mt_pos:before_first_get": 300, "mt_pos:between_conversions": 300, "mt_pos:after_last": 300,
+            "mt_pos:get_to_conversion": 300}
 
 TIME_TAG_CLASSES = ("BlockTimeTag", "ScopeTimeTag")
 
@@ -44,7 +64,7 @@ def plan(tier, seed):
     n = 2000 if tier == "quick" else 30000
     shards = 16 if tier == "quick" else 48
     per = n // shards
-    return [{"seed": seed * 1000003 + i, "n": per, "max_depth": 3 if tier == "quick" else 4,
+    return [{"seed": seed * 1000003 + i, "n": per, "n_mt": per // 4, "max_depth": 3 if tier == "quick" else 4,
              "max_ticks": 110 if tier == "quick" else 140} for i in range(shards)]
 
 
@@ -149,8 +169,102 @@ def check_run(run, res: Result, case):
         res.violation(mech, msg, case)
 
 
+def classify_stale_mirror(info, lost_in_mid_tick):
+    """At a quiescent point the report stream disagrees with a tag: why?"""
+    if lost_in_mid_tick:
+        # the tag's last change was made by a tick that completed while a report was being built and neither that
+        # report nor the quiescent follow-up report carries the new value
+        return "C36.change_during_report_build_not_reported_with_latest_value"
+    return classify_missing(info)
+
+
+def check_run_mt(run, res: Result, case):
+    """Two-thread stratum (opv/rigs/tagreport_mt_rig.py): ticks complete on the engine thread while the report builder is
+    mid-drain. Oracle = the property's, judged where 'between two reports' is unambiguous: after a report that was
+    built while nothing else ran (quiescent), the mirror of the report stream equals every tag's current value; no
+    report contains a tag twice; a snapshot report contains every tag."""
+    viol: dict[tuple, str] = {}
+    mirror: dict[str, object] = {}
+    mirror_src: dict[str, int] = {}
+    pending_mid: set[int] = set()       # ticks that completed during a report since the last quiescent point
+    notified: dict[str, int] = {}       # notifications per tag since the last quiescent point
+    nontrivial = False
+    res.count("mt_runs")
+    res.count("mt_ticks", run.ticks)
+    for rp in run.reports:
+        res.count("mt_reports")
+        names = [e[0] for e in rp.entries]
+        nameset = set(names)
+        res.count("mt_duplicate_checks")
+        if len(names) != len(nameset):
+            dup = sorted({n for n in names if names.count(n) > 1})
+            viol.setdefault(("C36.tag_twice_in_one_report", dup[0]),
+                            f"[two threads] report #{rp.index} ({rp.kind}, {rp.mode}) after tick {rp.after_tick} contains "
+                            f"{dup} more than once")
+        if rp.kind == "snap":
+            res.count("mt_snapshot_completeness_checks")
+            if rp.mid_ticks:
+                res.count("mt_snapshot_reports_with_mid_ticks")
+            missing = sorted(set(run.all_names) - nameset)
+            extra = sorted(nameset - set(run.all_names))
+            if missing or extra:
+                viol.setdefault(("C36.snapshot_incomplete", (missing or extra)[0]),
+                                f"[two threads] snapshot report #{rp.index} ({rp.mode}, {rp.mid_ticks} ticks completed "
+                                f"during the drain): missing {missing} unknown {extra}")
+        for n, v in rp.entries:
+            mirror[n] = v
+            mirror_src[n] = rp.index
+        for n, info in rp.tags.items():
+            notified[n] = notified.get(n, 0) + info["n_notified_since_report"]
+        res.count("mt_yield_points", rp.n_yields)
+        if rp.mid_ticks:
+            res.count("mt_reports_with_mid_ticks")
+            res.count("mt_mid_ticks", rp.mid_ticks)
+            res.count("mt_mode:" + rp.mode)
+            pending_mid.update(rp.mid_tick_numbers)
+            for pos, n in rp.fired:
+                res.count("mt_pos:" + pos)
+            if rp.requeued:
+                res.count("mt_reports_with_requeued_tag")
+            res.count("mt_tags_requeued_mid_drain", rp.requeued)
+            res.count("mt_tags_requeued_mid_drain_new_value", rp.requeued_new_value)
+            if rp.requeued_new_value:
+                nontrivial = True
+            continue
+        # ---- quiescent point: nothing ran while this report was built
+        res.count("mt_quiescent_reports")
+        if pending_mid:
+            res.count("mt_quiescent_followups_judged")
+        for n, info in rp.tags.items():
+            res.count("mt_mirror_checks")
+            if n not in mirror:
+                viol.setdefault(("C36.tag_never_reported", n),
+                                f"[two threads] tag '{n}' was in no report up to report #{rp.index}")
+                continue
+            if _neq(mirror[n], info["value"]):
+                lost = info["chg_tick"] in pending_mid
+                full = dict(info, n_notified_since_report=notified.get(n, 0))
+                key = (classify_stale_mirror(full, lost), n)
+                if key not in viol:
+                    viol[key] = (f"[two threads] after the quiescent report #{rp.index} ({rp.kind}, after tick "
+                                 f"{rp.after_tick}) tag '{n}' holds {info['value']!r} but the report stream says "
+                                 f"{mirror[n]!r} (last reported in #{mirror_src[n]}); last change in tick "
+                                 f"{info['chg_tick']} by {info['chg_site']}; ticks completed during report builds since "
+                                 f"the previous quiescent point: {sorted(pending_mid)}; {notified.get(n, 0)} "
+                                 f"notifications since then; report #{rp.index} contains {sorted(nameset)}")
+                else:
+                    res.count("violation_repeats_in_run")
+        pending_mid = set()
+        notified = {}
+    res.case((shape_hash(case["text"]) + ("M" if case.get("archiver") else "m")) if nontrivial else None,
+             sample=None)
+    for (mech, name), msg in viol.items():
+        res.violation(mech, msg, case)
+
+
 def run_shard(spec):
     from opv.rigs import tagreport_rig as TR
+    from opv.rigs import tagreport_mt_rig as MT
     res = Result()
     rnd = random.Random(spec["seed"])
     scratch = tempfile.mkdtemp(prefix="opv-")
@@ -159,6 +273,14 @@ def run_shard(spec):
             case = TR.gen_case(rnd, spec.get("max_depth", 3), spec.get("max_ticks", 110))
             run = TR.run_case(case, scratch, i)
             check_run(run, res, case)
+            if case.get("archiver"):
+                shutil.rmtree(scratch + f"/arch{i}", ignore_errors=True)
+        # two-thread stratum: own generator stream, so the runs above are the same as before it existed
+        rnd_mt = random.Random(spec["seed"] * 7919 + 36)
+        for i in range(spec.get("n_mt", 0)):
+            case = MT.gen_case(rnd_mt, spec.get("max_depth", 3), spec.get("max_ticks", 110))
+            run = MT.run_case(case, scratch, i)
+            check_run_mt(run, res, case)
             if case.get("archiver"):
                 shutil.rmtree(scratch + f"/arch{i}", ignore_errors=True)
     finally:
@@ -171,8 +293,12 @@ def replay(case):
     res = Result()
     scratch = tempfile.mkdtemp(prefix="opv-")
     try:
-        run = TR.run_case(case, scratch, 0)
-        check_run(run, res, case)
+        if "mt_seed" in case:
+            from opv.rigs import tagreport_mt_rig as MT
+            check_run_mt(MT.run_case(case, scratch, 0), res, case)
+        else:
+            run = TR.run_case(case, scratch, 0)
+            check_run(run, res, case)
     finally:
         shutil.rmtree(scratch, ignore_errors=True)
     return res
